@@ -81,7 +81,14 @@ def gen_family(r, sym_ok=True, ill_bias=0.5):
             else:
                 vals[i]["t"] = "duck" if vals[i]["t"] == "np" else "np"
                 kinds.append("arraytype")
-    return {"params": params, "ret": ret, "vals": vals, "has_sym": has_sym, "perturb": sorted(kinds) or ["none"], "k": 2}
+    # a second, consistent value set under a PERMUTED assignment (the sizes of a, b, c rotated): some siblings are called with
+    # it, so that the same expression text is evaluated under memos with equal sizes in equal order but different names
+    rot = {"a": pref["b"], "b": pref["c"], "c": pref["a"], "*v": pref["*v"], "{k}": 2}
+    vals2 = []
+    for p in params + [ret]:
+        vt = "np" if p["atype"] == "np" else "duck"
+        vals2.append({"t": vt, "s": g.shape_for(p["toks"], rot, p_bad=0.0, p_rank=0.0), "d": "float32"})
+    return {"params": params, "ret": ret, "vals": vals, "vals2": vals2, "has_sym": has_sym, "perturb": sorted(kinds) or ["none"], "k": 2}
 
 
 def family_scenario(seed, fam, r, max_perms=4, styles_per_perm=3, with_dc=True, only_new=False, same_name=False):
@@ -110,7 +117,9 @@ def family_scenario(seed, fam, r, max_perms=4, styles_per_perm=3, with_dc=True, 
             params = [[fam["params"][j]["name"], ann_of(fam["params"][j])] for j in perm]
             if need_k:
                 params.insert(r.randrange(len(params) + 1), ["k", None])
-            args = [({"t": "int", "v": fam["k"]} if nm == "k" else fam["vals"][[p["name"] for p in fam["params"]].index(nm)])
+            vset = 1 if (fam.get("vals2") and r.random() < 0.3) else 0
+            V = fam["vals2"] if vset else fam["vals"]
+            args = [({"t": "int", "v": fam["k"]} if nm == "k" else V[[p["name"] for p in fam["params"]].index(nm)])
                     for nm, _ in params]
             fns[fid] = {"style": style, "tc": tc, "kind": "fn", "params": params, "ret": ann_of(fam["ret"])}
             if same_name:
@@ -119,8 +128,8 @@ def family_scenario(seed, fam, r, max_perms=4, styles_per_perm=3, with_dc=True, 
                 fns[fid]["pyname"] = "fam"
                 fns[fid]["params"] = [[(f"p{j}" if nm != "k" else "k"), a] for j, (nm, a) in enumerate(params)]
             kw = r.choice((0, 2, 1))
-            ops.append({"op": "call", "fn": fid, "args": args, "kw": kw, "body": [], "ret": fam["vals"][-1], "exit": "ret"})
-            sibs.append({"fn": fid, "perm": perm, "style": style, "tc": tc, "kw": kw, "with_ret": True})
+            ops.append({"op": "call", "fn": fid, "args": args, "kw": kw, "body": [], "ret": V[-1], "exit": "ret"})
+            sibs.append({"fn": fid, "perm": perm, "style": style, "tc": tc, "kw": kw, "with_ret": True, "vset": vset})
     if with_dc and not need_k:
         fid = f"F{len(fns)}"
         perm = perms[-1]
@@ -146,12 +155,13 @@ def verdict(out):
     return "accept"
 
 
-def family_model(scn):
+def family_model(scn, vset=0):
     fam = scn["family"]
+    V = fam["vals2"] if vset else fam["vals"]
     pitems = []
-    for p, v in zip(fam["params"], fam["vals"][:-1]):
+    for p, v in zip(fam["params"], V[:-1]):
         pitems.append(({"atype": p["atype"], "dtype": p["dtype"], "dims": dims_text(p["toks"])}, v))
-    ritem = ({"atype": fam["ret"]["atype"], "dtype": fam["ret"]["dtype"], "dims": dims_text(fam["ret"]["toks"])}, fam["vals"][-1])
+    ritem = ({"atype": fam["ret"]["atype"], "dtype": fam["ret"]["dtype"], "dims": dims_text(fam["ret"]["toks"])}, V[-1])
     args = {"k": fam["k"]}
     return model.call_model(pitems, ritem, args), model.call_model(pitems, None, args)
 
@@ -161,12 +171,16 @@ def execute(scn):
     interp, runs, sc, states = ctxsim.run_threads(scn, scn["threads"], {"kind": "solo"}, rng(scn["seed"], "s"), yield_on_seams=False)
     outs = [t for t in runs[0].transcript if t[1] == "call"]
     full, ponly = family_model(scn)
+    models = {0: (full, ponly)}
+    if scn["family"].get("vals2"):
+        models[1] = family_model(scn, 1)
     viols = []
     verdicts = []
     for sib, (path, _, out) in zip(scn["siblings"], outs):
         v = verdict(out)
         verdicts.append(v)
-        allowed = full if sib["with_ret"] else ponly
+        mf, mp_ = models[sib.get("vset", 0)]
+        allowed = mf if sib["with_ret"] else mp_
         stats.inc("evaluations")
         stats.inc(f"sibling:{sib['style']}:{sib['tc']}{':dc' if sib.get('dc') else ''}")
         stats.inc("verdict:" + v)
@@ -178,7 +192,7 @@ def execute(scn):
                 "model_allows": sorted(allowed), "implementation": out},
                 sig={"oracle": "model-verdict", "got": v, "allowed": "+".join(sorted(allowed))}))
     if not scn["family"]["has_sym"]:
-        wr = {v for s, v in zip(scn["siblings"], verdicts) if s["with_ret"]}
+        wr = {v for s, v in zip(scn["siblings"], verdicts) if s["with_ret"] and not s.get("vset")}
         if len(wr) > 1 and len(viols) < 3:
             viols.append(violation(PID, "siblings-agree", {"verdicts": [[s["perm"], s["style"], s["tc"], s["kw"], v]
                                                                          for s, v in zip(scn["siblings"], verdicts)]},
